@@ -508,11 +508,21 @@ func (w *Worker) allocGlobals(pkg *ssa.Package, into map[*ssa.Global]*Value) {
 						*c = cell
 					}
 				}
+				// os.ErrNotExist and its siblings are io/fs's values (os.IsNotExist compares with them)
+				if pkg.Pkg.Path() == "os" && osErrAlias[g.Name()] {
+					if fsPkg := w.ex.Prog.ImportedPackage("io/fs"); fsPkg != nil {
+						if src, ok := fsPkg.Members[g.Name()].(*ssa.Global); ok {
+							*c = *w.global(src)
+						}
+					}
+				}
 				into[g] = c
 			}
 		}
 	}
 }
+
+var osErrAlias = map[string]bool{"ErrInvalid": true, "ErrPermission": true, "ErrExist": true, "ErrNotExist": true, "ErrClosed": true}
 
 // ensureInit runs the package initialiser (and, through it, those of its
 // imports that the engine may run).
